@@ -39,7 +39,7 @@ class C09(Spec):
     driver = 'vector'
     lib_srcs = ['vector.c', 'array.c', 'memory.c']
     driver_extra = '-Wl,--wrap=malloc,--wrap=realloc,--wrap=free,--wrap=calloc'
-    header_words = ('vec', 'fail', 'failfrom', 'samecb')
+    header_words = ('vec', 'fail', 'failfrom', 'samecb', 'atdiscard')
 
     def more_variants(self, cases, tier, seed):
         # every second case with a vector that has both callbacks once more with ONE function in both roles
@@ -52,6 +52,14 @@ class C09(Spec):
             n += 1
             if n % 2 == 0:
                 out.append(Case(c.name + 'b', c.header + ['samecb 1'], c.ops, c.origin))
+        # every second case with an at() once more with a caller that discards the address of out-of-range lookups
+        n = 0
+        for c in cases:
+            if any(h.split()[0] == 'atdiscard' for h in c.header) or not any(o.split()[0] == 'at' for o in c.ops):
+                continue
+            n += 1
+            if n % 2 == 0:
+                out.append(Case(c.name + 'd', c.header + ['atdiscard 1'], c.ops, c.origin))
         return out
     rule = ('cases = corpus + one case per edge of the breadth-first closure of the Coq model (allocator history '
             'normalised away) over sizes {0..3, SIZE_MAX, SIZE_MAX-1, SIZE_MAX/esize and neighbours}, several element '
